@@ -16,6 +16,7 @@ import operator
 
 from .tree import AnalysisError
 from .soupmodel import HostModel, ModelError
+from . import soupmodel as _soupmodel
 
 _BIN = {
     ast.Add: operator.add, ast.Sub: operator.sub, ast.Mult: operator.mul, ast.Div: operator.truediv,
@@ -58,12 +59,18 @@ def _isinstance(v, t):
     ts = t if isinstance(t, tuple) and not (len(t) == 2 and t[0] == "external") else (t,)
 
     def conv(x):
+        if isinstance(x, tuple) and len(x) == 2 and x[0] == "external" and x[1] in _soupmodel.EXTERNAL_TYPES:
+            return _soupmodel.EXTERNAL_TYPES[x[1]]
         if isinstance(x, tuple) and len(x) == 2 and x[0] == "external" and x[1] in _EXTERNAL_TYPES:
             import importlib
             mod_, _, nm = x[1].rpartition(".")
             return getattr(importlib.import_module(mod_), nm)          # stdlib type, used for isinstance only
         return x
-    ts = tuple(conv(x) for x in ts)
+    ts2 = []
+    for x in ts:
+        c_ = conv(x)
+        ts2.extend(c_ if isinstance(c_, tuple) and all(isinstance(y, type) for y in c_) else [c_])
+    ts = tuple(ts2)
     if any(isinstance(x, EnumClass) for x in ts):
         if any(isinstance(x, EnumClass) and isinstance(v, EnumMember) and v.cls is x for x in ts):
             return True
@@ -859,6 +866,11 @@ class Folder:
                     return self.call_function(m, [], {}, self_value=obj)
                 if m is not None:
                     return ("bound", m, obj)
+            if obj.attrs.get("__model__") is not None:
+                try:
+                    return getattr(obj.attrs["__model__"], x.attr)
+                except (AttributeError, ModelError) as ex:
+                    raise AnalysisError(f"constfold: attribute {x.attr} of the modelled base: {ex}")
             raise AnalysisError(f"constfold: attribute {x.attr} of {obj!r}")
         if isinstance(obj, HostModel):
             try:
@@ -905,6 +917,8 @@ class Folder:
                 return self._eval(v, _Env(self, c.module, self.module_env(c.module), {}))
             m = obj.cls.find_method(x.attr)
             if m is not None:
+                if m.kind == "classmethod":
+                    return ("bound", m, obj)
                 return FuncRef(m)
         raise AnalysisError(f"constfold: attribute {x.attr} on {type(obj).__name__}")
 
@@ -936,6 +950,25 @@ class Folder:
                     if f.attr == "extend":
                         args = [list(args[0])]
                     return getattr(selfv.attrs["__list__"], f.attr)(*args)
+                if m is None and isinstance(selfv, Stub) and "__model_cls__" in selfv.attrs:
+                    args = [self._hostify(a) for a in self._elts(x.args, e)]
+                    kw = self._kwargs(x, e)
+                    if f.attr == "__init__":
+                        try:
+                            selfv.attrs["__model__"] = selfv.attrs["__model_cls__"](*[a for a in args], **{
+                                k_: v_ for k_, v_ in kw.items() if v_ is not None})
+                        except ModelError as ex:
+                            raise AnalysisError(f"constfold: {selfv.attrs['__model_cls__'].__name__}: {ex}")
+                        except TypeError as ex:
+                            raise AnalysisError(f"constfold: constructor of the modelled base class: {ex}")
+                        return None
+                    mdl = selfv.attrs.get("__model__")
+                    if mdl is None:
+                        raise AnalysisError("constfold: modelled base class used before its constructor ran")
+                    try:
+                        return getattr(mdl, f.attr)(*args, **kw)
+                    except ModelError as ex:
+                        raise AnalysisError(f"constfold: {type(mdl).__name__}.{f.attr}: {ex}")
                 if m is None and isinstance(selfv, Stub) and "__dict__" in selfv.attrs \
                         and f.attr in ("__init__", "__setitem__", "__getitem__", "__contains__", "get", "pop", "update",
                                        "setdefault", "keys", "values", "items", "__len__", "__iter__", "clear", "__delitem__"):
@@ -973,6 +1006,18 @@ class Folder:
                     return self.call_function(m, args, kw, self_value=obj)
                 if f.attr in obj.attrs:
                     return self._apply(obj.attrs[f.attr], x, e)         # a callable stored in an attribute
+                if obj.attrs.get("__model__") is not None:
+                    mdl = obj.attrs["__model__"]
+                    try:
+                        m_ = getattr(mdl, f.attr)
+                    except AttributeError:
+                        raise AnalysisError(f"constfold: {type(mdl).__name__}.{f.attr} is outside the model")
+                    if not callable(m_):
+                        raise AnalysisError(f"constfold: {type(mdl).__name__}.{f.attr} is not a method of the model")
+                    try:
+                        return m_(*[self._hostify(a) for a in args], **{k_: self._hostify(v_) for k_, v_ in kw.items()})
+                    except ModelError as ex:
+                        raise AnalysisError(f"constfold: {type(mdl).__name__}.{f.attr}: {ex}")
                 if "__dict__" in obj.attrs and f.attr in _SAFE_METHODS[dict] | {"clear"}:
                     r_ = getattr(obj.attrs["__dict__"], f.attr)(*args, **kw)      # inherited from dict
                     return list(r_) if f.attr in ("keys", "values", "items") else r_
@@ -1027,6 +1072,10 @@ class Folder:
                     args = self._elts(x.args, e)
                     kw = {k_: self._hostify(v_) for k_, v_ in self._kwargs(x, e).items()}
                     return getattr(obj, f.attr)(*args, **kw)
+            if isinstance(obj, set) and f.attr == "pop" and len(obj) == 1 and not x.args:
+                return obj.pop()           # one element: no dependence on hash order
+            if isinstance(obj, set) and f.attr in ("remove", "clear", "intersection", "difference", "issubset", "issuperset"):
+                return getattr(obj, f.attr)(*self._elts(x.args, e))
             raise AnalysisError(f"constfold: method {f.attr} on {type(obj).__name__}")
         if isinstance(f, ast.Name) and f.id in ("getattr", "setattr", "hasattr") and not e.has(f.id) and x.args:
             args = self._elts(x.args, e)
@@ -1148,6 +1197,9 @@ class Folder:
                     obj.attrs["__list__"] = []
                 if any(b_.split(".")[-1] in ("dict", "OrderedDict") for b_ in ext):
                     obj.attrs["__dict__"] = {}
+                for b_ in ext:
+                    if b_ in getattr(self, "external_models", {}):
+                        obj.attrs["__model_cls__"] = self.external_models[b_]     # a modelled third-party base class
                 init = tgt.cls.find_method("__init__")
                 if init is not None:
                     self.call_function(init, args, kw, self_value=obj)
@@ -1249,7 +1301,13 @@ class Folder:
             local[params[0]] = self_value
             params = params[1:]
         if fn.kind == "classmethod":
-            local[params[0]] = ClassRef(fn.cls)
+            # `cls` is the class the method was reached through (a subclass inherits the method, not the binding)
+            if isinstance(self_value, ClassRef):
+                local[params[0]] = self_value
+            elif isinstance(self_value, Stub) and self_value.cls is not None:
+                local[params[0]] = ClassRef(self_value.cls)
+            else:
+                local[params[0]] = ClassRef(fn.cls)
             params = params[1:]
         a = fn.node.args
         pos = a.posonlyargs + a.args
